@@ -2,6 +2,7 @@
 //! public types of /repo (path dependencies, so the current working tree is what gets compiled) and
 //! prints exactly one observation line per input line.
 
+mod logged;
 mod objs;
 mod toy;
 #[cfg(feature = "zeroize")]
@@ -20,8 +21,28 @@ macro_rules! dispatch {
         }
     };
 }
+// real ciphers (thorough tier): the pseudo-width `w >= 101` of the header names the cipher
+macro_rules! real16 {
+    ($w:expr, $C:ident => $body:expr) => {
+        match $w {
+            101 => { type $C = logged::Logged<aes::Aes128>; Some($body) }
+            102 => { type $C = logged::Logged<aes::Aes256>; Some($body) }
+            103 => { type $C = logged::Logged<belt_block::BeltBlock>; Some($body) }
+            104 => { type $C = logged::Logged<kuznyechik::Kuznyechik>; Some($body) }
+            _ => None,
+        }
+    };
+}
+macro_rules! real8 {
+    ($w:expr, $C:ident => $body:expr) => {
+        match $w {
+            105 => { type $C = logged::Logged<magma::Magma>; Some($body) }
+            _ => None,
+        }
+    };
+}
 
-macro_rules! matrix_all {
+macro_rules! matrix_all_toy {
     ($bs:expr, $w:expr, $C:ident => $body:expr) => {
         dispatch!($bs, $w, $C => $body ;
             (1,1,U1,U1), (1,4,U1,U4), (2,3,U2,U3), (2,5,U2,U5), (3,2,U3,U2), (4,1,U4,U1), (4,4,U4,U4), (4,8,U4,U8), (5,5,U5,U5), (7,2,U7,U2),
@@ -29,33 +50,58 @@ macro_rules! matrix_all {
             (16,8,U16,U8), (24,2,U24,U2), (32,4,U32,U4), (48,3,U48,U3), (64,2,U64,U2), (255,2,U255,U2))
     };
 }
-macro_rules! matrix_div4 {
+macro_rules! matrix_div4_toy {
     ($bs:expr, $w:expr, $C:ident => $body:expr) => {
         dispatch!($bs, $w, $C => $body ;
             (4,1,U4,U1), (4,4,U4,U4), (4,8,U4,U8), (8,1,U8,U1), (8,3,U8,U3), (12,4,U12,U4), (16,1,U16,U1), (16,2,U16,U2),
             (16,3,U16,U3), (16,8,U16,U8), (24,2,U24,U2), (32,4,U32,U4), (48,3,U48,U3), (64,2,U64,U2))
     };
 }
-macro_rules! matrix_div8 {
+macro_rules! matrix_div8_toy {
     ($bs:expr, $w:expr, $C:ident => $body:expr) => {
         dispatch!($bs, $w, $C => $body ;
             (8,1,U8,U1), (8,3,U8,U3), (16,1,U16,U1), (16,2,U16,U2),
             (16,3,U16,U3), (16,8,U16,U8), (24,2,U24,U2), (32,4,U32,U4), (48,3,U48,U3), (64,2,U64,U2))
     };
 }
-macro_rules! matrix_div16 {
+macro_rules! matrix_div16_toy {
     ($bs:expr, $w:expr, $C:ident => $body:expr) => {
         dispatch!($bs, $w, $C => $body ;
             (16,1,U16,U1), (16,2,U16,U2), (16,3,U16,U3), (16,8,U16,U8), (32,4,U32,U4), (48,3,U48,U3), (64,2,U64,U2))
     };
 }
-macro_rules! matrix_16 {
+macro_rules! matrix_16_toy {
     ($bs:expr, $w:expr, $C:ident => $body:expr) => {
         dispatch!($bs, $w, $C => $body ;
             (16,1,U16,U1), (16,2,U16,U2), (16,3,U16,U3), (16,8,U16,U8))
     };
 }
 
+macro_rules! matrix_all {
+    ($bs:expr, $w:expr, $C:ident => $body:expr) => {
+        if $bs == 16 && $w >= 101 { real16!($w, $C => $body) } else if $bs == 8 && $w >= 101 { real8!($w, $C => $body) } else { matrix_all_toy!($bs, $w, $C => $body) }
+    };
+}
+macro_rules! matrix_div4 {
+    ($bs:expr, $w:expr, $C:ident => $body:expr) => {
+        if $bs == 16 && $w >= 101 { real16!($w, $C => $body) } else if $bs == 8 && $w >= 101 { real8!($w, $C => $body) } else { matrix_div4_toy!($bs, $w, $C => $body) }
+    };
+}
+macro_rules! matrix_div8 {
+    ($bs:expr, $w:expr, $C:ident => $body:expr) => {
+        if $bs == 16 && $w >= 101 { real16!($w, $C => $body) } else if $bs == 8 && $w >= 101 { real8!($w, $C => $body) } else { matrix_div8_toy!($bs, $w, $C => $body) }
+    };
+}
+macro_rules! matrix_div16 {
+    ($bs:expr, $w:expr, $C:ident => $body:expr) => {
+        if $bs == 16 && $w >= 101 { real16!($w, $C => $body) } else { matrix_div16_toy!($bs, $w, $C => $body) }
+    };
+}
+macro_rules! matrix_16 {
+    ($bs:expr, $w:expr, $C:ident => $body:expr) => {
+        if $bs == 16 && $w >= 101 { real16!($w, $C => $body) } else { matrix_16_toy!($bs, $w, $C => $body) }
+    };
+}
 fn make(family: &str, mode: &str, bs: usize, w: usize, key: &[u8], iv: &[u8]) -> Option<Box<dyn Obj>> {
     use ctr::flavors as fl;
     match (family, mode) {
@@ -95,20 +141,9 @@ fn make(family: &str, mode: &str, bs: usize, w: usize, key: &[u8], iv: &[u8]) ->
         ("cts", "ecbcs1") => matrix_all!(bs, w, C => CtsObj::<cts::EcbCs1<C>>::new(key, iv)),
         ("cts", "ecbcs2") => matrix_all!(bs, w, C => CtsObj::<cts::EcbCs2<C>>::new(key, iv)),
         ("cts", "ecbcs3") => matrix_all!(bs, w, C => CtsObj::<cts::EcbCs3<C>>::new(key, iv)),
-        ("toy", _) => matrix_all!(bs, w, C => { let _ = core::marker::PhantomData::<C>; toy_obj(bs, w, key)? }),
+        ("toy", _) => matrix_all!(bs, w, C => RawObj::<C>::new(key)),
         _ => None,
     }
-}
-
-fn toy_obj(bs: usize, w: usize, key: &[u8]) -> Option<Box<dyn Obj>> {
-    macro_rules! t {
-        ($bs:expr, $w:expr; $( ($b:literal, $wl:literal, $BS:ident, $W:ident) ),*) => {
-            match ($bs, $w) { $( ($b, $wl) => Some(ToyObj::<cipher::consts::$BS, cipher::consts::$W>::new(key)), )* _ => None }
-        };
-    }
-    t!(bs, w; (1,1,U1,U1), (1,4,U1,U4), (2,3,U2,U3), (2,5,U2,U5), (3,2,U3,U2), (4,1,U4,U1), (4,4,U4,U4), (4,8,U4,U8), (5,5,U5,U5), (7,2,U7,U2),
-        (8,1,U8,U1), (8,3,U8,U3), (12,4,U12,U4), (16,1,U16,U1), (16,2,U16,U2), (16,3,U16,U3),
-        (16,8,U16,U8), (24,2,U24,U2), (32,4,U32,U4), (48,3,U48,U3), (64,2,U64,U2), (255,2,U255,U2))
 }
 
 fn kv<'a>(toks: &[&'a str], k: &str) -> Option<&'a str> {
@@ -158,6 +193,7 @@ fn main() {
                 let key = unhex(kv(&toks, "key")?)?;
                 let iv = unhex(kv(&toks, "iv")?)?;
                 toy::reset_calls();
+                logged::reset_log();
                 catch_unwind(AssertUnwindSafe(|| make(family, mode, bs, w, &key, &iv))).ok()?
             })();
             match made {
@@ -198,6 +234,7 @@ fn main() {
                     _ => "bad-op".into(),
                 },
                 ["dcalls"] => format!("dcalls {}", toy::D_CALLS.load(std::sync::atomic::Ordering::Relaxed)),
+                ["table"] => logged::table_line(),
                 _ => {
                     let cur = c.cur;
                     let r = catch_unwind(AssertUnwindSafe(|| c.pool[cur].step(&toks)));
